@@ -221,3 +221,73 @@ Example C13_late_declaration_diverges :
   refines_on true 1 cis4 [XoCreate 0 3 [] false; XoDep 0 6; XoRemove 0 0 1 true]%N = false /\
   refines_on true 1 cis4 [XoCreate 0 3 [] false; XoDep 0 6; XoAssign 0 0 3 None]%N = true.
 Proof. vm_compute. repeat split. Qed.
+
+(* ---- totality: inside the contract the model run never ends in Err ---------------------------------------------- *)
+(* proofs/DepsTotal.v (on top of proofs/ManagerTotal.v, see Properties_C02.v).  The hypothesis `mrun = Ok` of the entity
+   level theorems is discharged for alpha_d.  Two things are new with declarations:
+   - the fixpoint loop of getExtraComponents has no fuel problem: on a well-formed table every round that does not stop
+     adds one of the 128 component ids, so it returns within 129 rounds (C13_closure_loop_converges; the model's fuel
+     is 130; the C++ loop has no bound and needs none);
+   - the closure adds component ids on its own, so the declared dependents must have a description as well (reg_d):
+     otherwise the creation of an entity with the master builds an archetype whose mask has an undescribed id
+     (C13_model_run_total_refuted_without_registration; component_factory.cpp:52-56, unchecked vector index). *)
+From Mustache.proofs Require Import ManagerTotal DepsTotal.
+
+Theorem C13_closure_loop_converges : forall s m, dwf (deps s) -> exists r, extra_components s m = Ok r.
+Proof. exact extra_components_total. Qed.
+Print Assumptions C13_closure_loop_converges.
+
+Theorem C13_model_run_total : forall typed n cis ops,
+  cis_ok cis -> forallb (alpha_d cis) ops = true -> forallb (reg_d cis) ops = true -> decl_ok (x_init n cis) ops = true ->
+  x_viol (xrun n cis ops) = 0 -> (N.of_nat (creates ops) < 16777000)%N ->
+  exists s hs, mrun typed n cis ops = Ok (s, hs) /\ length hs = creates ops.
+Proof. exact deps_model_run_total. Qed.
+Print Assumptions C13_model_run_total.
+
+(* C13_entity_level without the hypothesis on the model run *)
+Theorem C13_entity_level_total : forall typed n cis ops,
+  cis_ok cis -> forallb (alpha_d cis) ops = true -> forallb (reg_d cis) ops = true -> decl_ok (x_init n cis) ops = true ->
+  x_viol (xrun n cis ops) = 0 -> (N.of_nat (creates ops) < 16777000)%N ->
+  refines_on typed n cis ops = true.
+Proof. exact deps_refines_total. Qed.
+Print Assumptions C13_entity_level_total.
+
+(* C13_entity_level_pointwise, C13_entity_level_observations and the equality of the two tables for the run that exists *)
+Theorem C13_entity_level_refinement_total : forall typed n cis ops,
+  cis_ok cis -> forallb (alpha_d cis) ops = true -> forallb (reg_d cis) ops = true -> decl_ok (x_init n cis) ops = true ->
+  x_viol (xrun n cis ops) = 0 -> (N.of_nat (creates ops) < 16777000)%N ->
+  exists s hs, mrun typed n cis ops = Ok (s, hs) /\ length hs = x_count (xrun n cis ops) /\
+  (forall k,
+    match find_ent (xrun n cis ops) k with
+    | Some e => exists e', abs_ent s k (nth k hs null_handle) = Some e' /\ ent_match e e' = true
+    | None => abs_ent s k (nth k hs null_handle) = None
+    end) /\
+  (forall k c, c < MASK_BITS ->
+    step s (OHas (nth k hs null_handle) c) = Ok (s, RBool (spec_has (xrun n cis ops) k c)) /\
+    exists v, step s (OGetConst (nth k hs null_handle) c) = Ok (s, RCell (spec_has (xrun n cis ops) k c) v) /\
+              forall e w, find_ent (xrun n cis ops) k = Some e -> In (c, w) (e_comps e) -> cell_le w v = true) /\
+  deps s = x_deps (xrun n cis ops).
+Proof. exact deps_refinement_total. Qed.
+Print Assumptions C13_entity_level_refinement_total.
+
+Example C13_total_nonvacuous :
+  cis_ok cis6 /\ forallb (alpha_d cis6) script_entity = true /\ forallb (reg_d cis6) script_entity = true /\
+  decl_ok (x_init 1 cis6) script_entity = true /\ x_viol (xrun 1 cis6 script_entity) = 0 /\
+  (N.of_nat (creates script_entity) < 16777000)%N /\ creates script_entity = 5.
+Proof. split; [exact cis6_ok|]. repeat split; vm_compute; reflexivity. Qed.
+
+Example C13_closure_loop_converges_nonvacuous : dwf (deps state_entity) /\ deps state_entity <> [].
+Proof. split; [exact (proj1 C13_code_closure_nonvacuous)|]. vm_compute. discriminate. Qed.
+
+(* without the registration of the declared dependents totality fails: "0 requires 7" in a registry of six types; the
+   script names described ids only in its creations and assignments, stays inside the contract -- and creating an
+   entity with component 0 ends in Err *)
+Theorem C13_model_run_total_refuted_without_registration :
+  let ops := [XoDep 0 128; XoCreate 0 1 [] false]%N in
+  cis_ok cis6 /\ forallb (alpha_d cis6) ops = true /\ forallb (reg_b cis6) ops = true /\ forallb (reg_d cis6) ops = false /\
+  decl_ok (x_init 1 cis6) ops = true /\ x_viol (xrun 1 cis6 ops) = 0 /\
+  forall typed, mrun typed 1 cis6 ops = Err OobIndex.
+Proof.
+  cbv zeta. split; [exact cis6_ok|]. repeat split; vm_compute; reflexivity.
+Qed.
+Print Assumptions C13_model_run_total_refuted_without_registration.
